@@ -469,9 +469,12 @@ int parse_directives(AsmContext *asm_context)
     //int token_type;
 
     tokens_get(asm_context, token, TOKENLEN);
-    asm_context->symbols.append(
-      token,
-      asm_context->address / asm_context->bytes_per_address);
+    if (asm_context->symbols.append(
+          token,
+          asm_context->address / asm_context->bytes_per_address) != 0)
+    {
+      return -1;
+    }
 
     if (asm_context->symbols.scope_start() != 0)
     {
